@@ -1,5 +1,6 @@
 """C14 -- circle and sphere parameters (X1, X2, U1). Narrow."""
 from ..rules import hyp_rules as H
+from ..rules import shape_rules as S
 from ..rules.common import u1
 
 ENTRIES = [(H.HYP, q) for q in (
@@ -12,6 +13,7 @@ ENTRIES = [(H.HYP, q) for q in (
 
 def run(ctx):
     H.rule_x1x2(ctx)
+    S.rule_ax1(ctx, [S.CORE, H.HYP])
     u1(ctx, ENTRIES, min_functions=15)
     ctx.r.assume("that centre/radius/angles describe the true geodesic, "
                  "orthogonality to the boundary and horosphere tangency are "
